@@ -82,6 +82,14 @@ func (o *Obs) Fail(vclass, format string, args ...interface{}) {
 	}
 }
 
+// Inconclusive records that the monitor could not decide this case (watchdog fired,
+// precondition not met). It makes the run inconclusive, never a violation.
+func (o *Obs) Inconclusive(format string, args ...interface{}) {
+	if o.harnessErr == "" {
+		o.harnessErr = "inconclusive: " + fmt.Sprintf(format, args...)
+	}
+}
+
 // Failed reports whether a violation has been recorded.
 func (o *Obs) Failed() bool { return o.viol != "" }
 
